@@ -31,7 +31,7 @@ Write(h, v) == /\ phase[h] = "started" /\ written' = [written EXCEPT ![h] = v]
 (* with a notifier that the thread leaves behind becomes due                                        *)
 Exit(h, c) == /\ phase[h] = "started"
               /\ phase' = [phase EXCEPT ![h] = "exited"] /\ code' = [code EXCEPT ![h] = c]
-              /\ due' = due \cup {<<k, tls[k][h]>> : k \in {x \in Keys : keyfn[x] = 1 /\ tls[x][h] # 0}}
+              /\ due' = due \cup {<<k, tls[k][h]>> : k \in {x \in Keys : keyfn[x] \in {1, 2} /\ tls[x][h] # 0}}
               /\ tls' = [k \in Keys |-> [tls[k] EXCEPT ![h] = 0]]
               /\ UNCHANGED <<joinable, refs, ownref, freed, written, keyfn>>
 (* internal: the library drops the thread's own reference when the thread terminates *)
@@ -52,13 +52,17 @@ JoinRet(h, c, seen) == /\ ~freed[h] /\ refs[h] > 0
                        /\ UNCHANGED uvars
 KeyNew(k, f) == /\ keyfn[k] = -1 /\ keyfn' = [keyfn EXCEPT ![k] = f]
                 /\ UNCHANGED <<phase, joinable, refs, ownref, freed, code, written, tls, due>>
-TSet(k, t, v) == /\ keyfn[k] # -1 /\ tls' = [tls EXCEPT ![k][t] = v]      \* old value is NOT destroyed
+(* p_uthread_local_free releases the reference to the key, not the key: no call goes through it any more, but a value a thread *)
+(* left under it is still destroyed when that thread exits (2 = released key with notifier, 3 = released key without)         *)
+KeyFree(k) == /\ keyfn[k] \in {0, 1} /\ keyfn' = [keyfn EXCEPT ![k] = IF @ = 1 THEN 2 ELSE 3]
+              /\ UNCHANGED <<phase, joinable, refs, ownref, freed, code, written, tls, due>>
+TSet(k, t, v) == /\ keyfn[k] \in {0, 1} /\ tls' = [tls EXCEPT ![k][t] = v]      \* old value is NOT destroyed
                  /\ UNCHANGED <<phase, joinable, refs, ownref, freed, code, written, keyfn, due>>
-TReplBegin(k, t, v) == /\ keyfn[k] # -1
+TReplBegin(k, t, v) == /\ keyfn[k] \in {0, 1}
                        /\ due' = IF keyfn[k] = 1 /\ tls[k][t] # 0 THEN due \cup {<<k, tls[k][t]>>} ELSE due
                        /\ tls' = [tls EXCEPT ![k][t] = v]
                        /\ UNCHANGED <<phase, joinable, refs, ownref, freed, code, written, keyfn>>
-TGet(k, t, v) == keyfn[k] # -1 /\ v = tls[k][t] /\ UNCHANGED uvars
+TGet(k, t, v) == keyfn[k] \in {0, 1} /\ v = tls[k][t] /\ UNCHANGED uvars
 Destroy(k, v) == /\ <<k, v>> \in due /\ due' = due \ {<<k, v>>}
                  /\ UNCHANGED <<phase, joinable, refs, ownref, freed, code, written, keyfn, tls>>
 Quiescent == /\ \A h \in Handles : phase[h] # "none" => (freed[h] /\ phase[h] = "exited")
